@@ -79,13 +79,23 @@ def rand_tree(rng, depth=3, allow_bad=True, discouraged=False, namespaces=None):
 def build(t):
     """description -> real odf.element objects, through the public API"""
     from odf.element import Element, Text, CDATASection
+    # nodes are mutable: part of the time the final value is assigned AFTER construction (node.data = ..., a second setAttrNS)
+    late = (len(t[1]) % 3 == 1)
     if t[0] == 'T':
-        return Text(t[1])
+        n = Text(u'tmp' if late else t[1])
+        if late:
+            n.data = t[1]
+        return n
     if t[0] == 'C':
-        return CDATASection(t[1])
+        n = CDATASection(u'tmp' if late else t[1])
+        if late:
+            n.data = t[1]
+        return n
     _, ns, local, attrs, kids = t
     e = Element(qname=(ns, local), check_grammar=False)
     for (ans, al, v) in attrs:
+        if len(v) % 3 == 1:
+            e.setAttrNS(ans if ans != u'' else None, al, u'tmp')
         e.setAttrNS(ans if ans != u'' else None, al, v)
     for k in kids:
         kn = build(k)
